@@ -17,4 +17,4 @@ fi
 B=$("$VERIF/scripts/build.sh" $MODE) || exit 2
 RACE=(); [ $MODE = race ] && RACE=(-race)
 exec "$B/lssim" run -property "$ID" -tier "$TIER" -seed "$SEED" -workers "${VERIF_WORKERS:-16}" \
-  -evidence "$VERIF/evidence/$ID.json" -replays "$VERIF/replays" -known "$VERIF/KNOWN_FINDINGS.json" -sites "$B/sites.json" "${RACE[@]}"
+  -evidence "${VERIF_EVIDENCE_DIR:-$VERIF/evidence}/$ID.json" -replays "${VERIF_REPLAYS_DIR:-$VERIF/replays}" -known "$VERIF/KNOWN_FINDINGS.json" -sites "$B/sites.json" "${RACE[@]}"
